@@ -110,3 +110,6 @@ impl fmt::Debug for Type {
             .finish()
     }
 }
+
+#[cfg(kani)]
+include!(concat!(env!("ASSETS_MANAGER_VERIF"), "/incrate/key.rs"));
